@@ -131,7 +131,7 @@ func (r *Runner) internLine(l *Line) {
 		in(st.Pre)
 		in(st.Post)
 		in(st.Roots)
-		for _, p := range []*JProof{st.Pf, st.Pfa, st.Pfb} {
+		for _, p := range []*JProof{st.Pf, st.Pfa, st.Pfb, st.Cp} {
 			if p != nil {
 				in(p.P)
 			}
